@@ -337,11 +337,13 @@ class INETBase(NLRI):
 
         Includes family, AddPath status, and wire bytes.
         """
+        # the path tag is variable length (4 path bytes, or b'disabled'), so it carries its length:
+        # without it the tag runs into the mask and prefix and two different routes share an index
         if self._has_addpath:
             # _packed already includes path bytes
-            return bytes(Family.index(self)) + self._packed
+            return bytes(Family.index(self)) + b'\x04' + self._packed
         # No AddPath - add discriminator to distinguish from has_addpath=True with 0x00000000
-        return bytes(Family.index(self)) + b'disabled' + self._packed
+        return bytes(Family.index(self)) + b'\x08disabled' + self._packed
 
     def prefix_index(self) -> bytes:
         if self._has_addpath:
